@@ -431,7 +431,12 @@ func baseToNumber(L *LState) int {
 	base := L.OptInt(2, 10)
 	noBase := L.Get(2) == LNil
 
-	switch lv := L.CheckAny(1).(type) {
+	v := L.CheckAny(1)
+	if nm, ok := v.(LNumber); ok && !(noBase || base == 10) {
+		// with an explicit base the argument is read as a string (luaL_checkstring): tonumber(10, 16) is 16
+		v = LString(nm.String())
+	}
+	switch lv := v.(type) {
 	case LNumber:
 		L.Push(lv)
 	case LString:
